@@ -17,6 +17,7 @@ FailedSteps(pre, cur) ==
   \cup (IF HeightNotOlder(pre, o, cur.state) THEN {} ELSE {"HeightNotOlder"})
   \cup (IF HostSetOnlyForward(pre, o, cur.state) THEN {} ELSE {"HostSetOnlyForward"})
   \cup (IF NoEffectOnReject(pre, o, cur.state) THEN {} ELSE {"NoEffectOnReject"})
+  \cup (IF ClientBound(pre, o, cur.state) THEN {} ELSE {"ClientBound"})
 
 CheckLine(i) ==
   LET cur == Trace[i] IN
